@@ -131,6 +131,17 @@ Theorem C20_const_path_rejected : forall w cx m tag v c k, m = MArr \/ m = MBoxA
   exists e, run crate_decls w cx m (InSemi (User tag v c) (ConstPath k)) = CompileError e.
 Proof. exact rep_constpath_rejected. Qed.
 
+(* a repeat operand that is a path to a `const` item of the element type is accepted for every
+   length also when the element type is not Copy, in run-time and const positions alike *)
+Theorem C20_const_operand_ty : forall w cx v k, 0 <= k ->
+  run crate_decls w cx MArr (InSemi (ConstPath v) (TyLen k)) = Done (VGA k (copies v k), []).
+Proof. exact arr_rep_const_operand_ty. Qed.
+
+Theorem C20_const_operand_expr : forall w cx v tn n, 0 <= n ->
+  run crate_decls w cx MArr (InSemi (ConstPath v) (User tn n true))
+  = if csup w n then Done (VGA n (copies v n), []) else CompileError ENoConstLen.
+Proof. exact arr_rep_const_operand_expr. Qed.
+
 (* ---- tie to the current source: the arms of arr!, box_arr!, box_arr_helper! (matcher shape and
    transcriber term) and the const-ness of from_array / const_transmute / try_from_vec /
    __from_vec_helper, regenerated by tools/ga2coq from src/arr.rs, src/lib.rs, src/impl_alloc.rs on
